@@ -14,6 +14,10 @@ O = lambda s: int(s, 8)  # noqa: E731
 # >= 2 nodes on each of levels 1-3, one on level 4 (closed under parent)
 TOPO = [O(x) for x in ("0", "1", "2", "11", "12", "21", "111", "211", "1111")]
 SENDERS = [O(x) for x in ("0", "1", "2", "11", "111", "1111")]
+# second population: a full level 1 (every child slot of the master, incl. digit 5), sparse below
+TOPO2 = [O(x) for x in ("0", "1", "2", "3", "4", "5", "15", "25", "31", "131", "315", "1315")]
+SENDERS2 = [O(x) for x in ("0", "1", "5", "15", "131", "1315")]
+TOPOS = (TOPO, TOPO2)
 LEVELS = (None, 0, 1, 2, 3, 4)
 LENGTHS = (0, 5, 24, 25, 144)
 TYPES = (1, 65, 127, 130, 255)
@@ -24,12 +28,12 @@ BURST_TYPE = 33
 _templates = {}
 
 
-def template(cost, allow_off):
-    key = (cost, allow_off)
+def template(cost, allow_off, topo=0):
+    key = (cost, allow_off, topo)
     t = _templates.get(key)
     if t is None:
         specs = []
-        for a in TOPO:
+        for a in TOPOS[topo]:
             sp = {"addr": a}
             if a == allow_off:
                 sp["attrs"] = {"allow_multicast": False}
@@ -45,7 +49,7 @@ def sender_class(a):
 
 
 def run_case(case):
-    net = copy.deepcopy(template(case["cost"], case["allow_off"]))
+    net = copy.deepcopy(template(case["cost"], case["allow_off"], case.get("topo", 0)))
     net.w.activate()
     H.reset_frame_ids()
     H.set_frame_id(case.get("id0", 0))
@@ -303,7 +307,7 @@ def build_items(tier, seed):
                 for allow_off in (None, O("2"), O("12")):
                     if allow_off is not None and (ri not in (0, 1, len(relay_cfgs) - 1) or allow_off == src):
                         continue  # multicast() on a node that itself has multicasting off is not specified
-                    lens = LENGTHS if (ri == 0 or tier == "thorough") else (5, 25)
+                    lens = LENGTHS
                     for mlen in lens:
                         tsel = timing if tier == "thorough" and ri == 0 else [timing[0], timing[(k * 5 + 1) % len(timing)]]
                         for (c, l) in dict.fromkeys(tsel):
@@ -312,6 +316,32 @@ def build_items(tier, seed):
                             k += 1
                             cases.append(dict(src=src, level=lvl, relays=list(relays), allow_off=allow_off, mlen=mlen, mtype=TYPES[k % len(TYPES)],
                                               cost=c, lat=l, seed=seed, id0=(k * 131) & 0xFFFF))
+    # every message length and every user message type / the system types that are not consumed (first relay configuration)
+    for src in SENDERS:
+        for lvl in LEVELS:
+            for mlen in (range(0, 145, 5) if tier == "quick" else range(0, 145)):
+                k += 1
+                cases.append(dict(src=src, level=lvl, relays=[], allow_off=None, mlen=mlen, mtype=TYPES[k % len(TYPES)],
+                                  cost=k % 4, lat=k % 2, seed=seed, id0=(k * 131) & 0xFFFF))
+            for mtype in (range(0, 128, 5) if tier == "quick" else list(range(0, 148)) + list(range(151, 193)) + [199, 200, 254, 255]):
+                if mtype in (PRE_TYPE, BURST_TYPE):
+                    continue  # (the harness's own marker types)
+                k += 1
+                cases.append(dict(src=src, level=lvl, relays=[O("11")] if k % 2 else [], allow_off=None, mlen=(3, 30)[k % 2], mtype=mtype,
+                                  cost=k % 4, lat=k % 2, seed=seed, id0=(k * 131) & 0xFFFF, mtype_fixed=True))
+    # second population (thorough): a full level 1, sparse deeper levels
+    if tier == "thorough":
+        rl2 = [r for r in TOPO2 if 1 <= N.level_of(r) <= 3]
+        for src in SENDERS2:
+            for lvl in LEVELS:
+                for relays in ([], [O("1")], [O("5")], [O("31")], [O("131")], rl2):
+                    for allow_off in (None, O("3"), O("25")):
+                        if allow_off == src or (allow_off is not None and relays not in ([], rl2)):
+                            continue
+                        for mlen in (5, 25, 144):
+                            k += 1
+                            cases.append(dict(src=src, level=lvl, relays=list(relays), allow_off=allow_off, mlen=mlen, mtype=TYPES[k % len(TYPES)],
+                                              cost=k % 4, lat=k % 2, seed=seed, id0=(k * 131) & 0xFFFF, topo=1))
     # pre-histories: the multicast is preceded by unicast traffic (delivered / failed) or a
     # re-assignment of the node address at the sender, at a receiver of the target level, at a relay
     for src in SENDERS:
@@ -353,8 +383,9 @@ def run(tier, seed, rep, only=None):
         rule="every sender class (master, first child 0o1, another level-1 node, levels 2, 3, 4) x target level {default,0..4} x relay configuration "
              "(off / on at exactly one node of levels 1-3 / on everywhere) x allow_multicast off at one node x message length x timing classes on a "
              "populated 5-level tree of 9 real nodes; plus 14 pre-histories (delivered / failed unicast, node-address re-assignment at sender, receiver, relay; earlier multicast / unicast of the same type not yet dequeued; back-to-back multicasts; a relay whose application queue is full) "
-             "before the multicast; non-trivial = distinct case (every case transmits or must transmit).",
-        bounds=dict(topology=["%o" % a for a in TOPO], senders=["%o" % a for a in SENDERS], levels=[str(x) for x in LEVELS], lengths=list(LENGTHS), types=list(TYPES)),
+             "before the multicast; every message length 0..144 (quick: step 5) and every message type outside the network's own (quick: user types, step 5) per sender x level; "
+             "thorough: a second population (full level 1 incl. child digit 5, sparse levels 2-4) x relay configurations x allow_multicast off; non-trivial = distinct case (every case transmits or must transmit).",
+        bounds=dict(topology2=["%o" % a for a in TOPO2] if tier == "thorough" else [], topology=["%o" % a for a in TOPO], senders=["%o" % a for a in SENDERS], levels=[str(x) for x in LEVELS], lengths=list(LENGTHS), types=list(TYPES)),
         trusted_base=["vf/sim.py", "vf/net.py"],
         assumptions=["loss-free medium; a receiver whose RX FIFO overflowed, or a run with an on-air collision between relays, is excused from the "
                      "'received by all' clause (multicasts are unacknowledged) but never from the safety clauses"],
